@@ -120,7 +120,7 @@ def run(chk, only=None, seed=None):
     ok_cases, out_cases = vlib.coq_make(["Remoting/LbCases.vo"])
     if not ok_cases:
         raise vlib.Broken("Remoting/LbCases.v does not compile:\n" + out_cases[-1500:])
-    n, nc = (260, 6) if quick else (5000, 40)
+    n, nc = (260, 6) if quick else (10000, 60)
     kw = dict(seed=seed, n=n, nc=nc)
     if only is not None:
         kw["only"] = only
